@@ -29,9 +29,11 @@ type c35Scenario struct {
 	allowOOO        bool
 	concurrency     int
 	extLabels       map[string]string
+	extLabelsLater  map[string]string // external labels after the first sync attempt (reconfiguration)
 	wipeMetaFile    bool // restart loses thanos.shipper.json
 	dropLocal       int  // index of a block removed locally after the first attempt (-1 none)
 	srcDir          string
+	lexOrder        bool
 }
 
 func (sc *c35Scenario) eligible(sp fixtures.SynthSpec) bool {
@@ -51,12 +53,29 @@ func runC35(x *simkit.Exec) {
 		allowOOO:        x.Bool("allowOOO", 1, 3),
 		concurrency:     x.Range("concurrency", 1, 3),
 		wipeMetaFile:    x.Bool("wipeMetaFile", 1, 3),
+		lexOrder:        x.Bool("lexListing", 1, 2),
 		dropLocal:       -1,
 		srcDir:          filepath.Join(x.TempDir(), "src"),
 		extLabels:       map[string]string{"cluster": fmt.Sprintf("c%d", x.Draw("cluster", 3))},
 	}
 	if x.Bool("twoLabels", 1, 3) {
 		sc.extLabels["replica"] = "r0"
+	}
+	sc.extLabelsLater = map[string]string{}
+	for k, v := range sc.extLabels {
+		sc.extLabelsLater[k] = v
+	}
+	switch x.Draw("relabel", 4) {
+	case 1: // a label name is dropped
+		if len(sc.extLabelsLater) > 1 {
+			delete(sc.extLabelsLater, "cluster")
+		} else {
+			sc.extLabelsLater = map[string]string{"region": "eu"}
+		}
+	case 2: // a value changes
+		sc.extLabelsLater["cluster"] = "c-new"
+	case 3: // a name is added
+		sc.extLabelsLater["zone"] = "z1"
 	}
 	n := x.Range("nblocks", 1, 4)
 	mk := func(i int) fixtures.SynthSpec {
@@ -96,7 +115,7 @@ func runC35(x *simkit.Exec) {
 		desc = append(desc, fmt.Sprintf("L%d/s%d", max(sp.Level, 1), sp.NumSamples))
 	}
 	x.Sample = map[string]any{"blocks": desc, "late": len(sc.late), "uploadCompacted": sc.uploadCompacted, "allowOutOfOrder": sc.allowOOO,
-		"wipe_shipper_meta_on_restart": sc.wipeMetaFile, "drop_local": sc.dropLocal}
+		"wipe_shipper_meta_on_restart": sc.wipeMetaFile, "drop_local": sc.dropLocal, "labels": fmt.Sprint(sc.extLabels), "labels_later": fmt.Sprint(sc.extLabelsLater)}
 
 	nops := sc.execute(x, "ref", 0, false)
 	if x.Failed() {
@@ -116,18 +135,25 @@ func (sc *c35Scenario) execute(x *simkit.Exec, salt string, crashAt int, faults 
 	ops := 0
 	x.Bubble(salt, func(s *simkit.Sim) {
 		bkt := simbucket.New("bucket")
+		bkt.LexOrder = sc.lexOrder
 		bkt.Attach(s)
 		const actor = "shipper"
 		h := bkt.Handle(actor)
 		vis := &visibilityMonitor{b: bkt, deleting: map[string]bool{}}
 		seenComplete := map[string]bool{}
+		curLabels := sc.extLabels
+		uploadedIn := map[string]map[string]string{} // block -> external labels current when its meta.json appeared
 		bkt.AfterOp = func(op simbucket.Op) {
 			if sig, det := vis.check(); sig != "" {
 				s.Violate("visible-block-complete", "shipper:"+sig, "after %s: %s\n%s", op, det, simbucket.FormatLog(bkt.Log(), 25))
 			}
 			for n := range bkt.Inner.Objects() {
 				if strings.HasSuffix(n, "/"+block.MetaFilename) {
-					seenComplete[strings.TrimSuffix(n, "/"+block.MetaFilename)] = true
+					id := strings.TrimSuffix(n, "/"+block.MetaFilename)
+					if !seenComplete[id] {
+						uploadedIn[id] = curLabels
+					}
+					seenComplete[id] = true
 				}
 			}
 		}
@@ -222,11 +248,27 @@ func (sc *c35Scenario) execute(x *simkit.Exec, salt string, crashAt int, faults 
 							s.Violate("eligible-block-uploaded", "meta-unparsable", "block %s: %v", bkt.Canon(id), err)
 							continue
 						}
-						for k, v := range sc.extLabels {
-							if m.Thanos.Labels[k] != v {
-								s.Violate("uploaded-with-current-external-labels", "label-mismatch",
-									"block %s uploaded with labels %v, shipper's external labels are %v", bkt.Canon(id), m.Thanos.Labels, sc.extLabels)
+						// labels the block must carry: its own stored Thanos labels overridden by the
+						// external labels that were current when it was uploaded
+						want := map[string]string{}
+						if sp.Thanos {
+							for k, v := range sp.Labels {
+								want[k] = v
 							}
+						}
+						for k, v := range uploadedIn[id] {
+							want[k] = v
+						}
+						if fmt.Sprint(want) != fmt.Sprint(m.Thanos.Labels) {
+							sig := "label-mismatch"
+							for k := range m.Thanos.Labels {
+								if _, ok := want[k]; !ok {
+									sig = "stale-label-from-earlier-configuration"
+								}
+							}
+							s.Violate("uploaded-with-current-external-labels", sig,
+								"block %s is in the bucket with labels %v; its stored labels overridden by the external labels current at upload (%v) give %v\n%s",
+								bkt.Canon(id), m.Thanos.Labels, uploadedIn[id], want, simbucket.FormatLog(bkt.Log(), 30))
 						}
 					}
 					if attempt > 0 || (crashAt == 0 && !faults) {
@@ -241,6 +283,8 @@ func (sc *c35Scenario) execute(x *simkit.Exec, salt string, crashAt int, faults 
 					}
 				}
 				if attempt == 0 {
+					lset = labels.FromMap(sc.extLabelsLater)
+					curLabels = sc.extLabelsLater
 					// the world moves on between attempts
 					for _, sp := range sc.late {
 						addLocal(sp)
